@@ -48,6 +48,10 @@ def bootstrap(spec):
         os.environ["TZ"] = spec.get("tz") or "UTC"
     os.environ["PENDULUM_EXTENSIONS"] = "0" if spec["config"] == "ext0" else "1"
     time.tzset()
+    if spec.get("calendar_first") is not None and not spec.get("suite"):
+        import calendar
+
+        calendar.setfirstweekday(spec["calendar_first"])
     src = os.path.join(common.REPO, "src")
     if src in sys.path:
         sys.path.remove(src)
@@ -132,10 +136,21 @@ def main():
                     # violation decides; running into the shard's wall-clock limit would lose the witnesses)
                     M.notes.append("shard stopped after 3 hanging cases")
                     break
-            except Exception:
-                M.count("harness_error")
-                if len(M.notes) < 5:
-                    M.notes.append(f"harness error on {case!r}: {traceback.format_exc(limit=6)}")
+            except Exception as e:  # noqa: BLE001
+                M.quiet = 0
+                frames = traceback.extract_tb(e.__traceback__)
+                lib = [f for f in frames if "/pendulum/" in f.filename and "/pvmon/" not in f.filename]
+                if frames and lib and frames[-1] is lib[-1]:
+                    # raised inside the library and not anticipated by the workload (which catches what the property allows):
+                    # the call was supposed to return
+                    where = f"{os.path.basename(lib[0].filename)}:{lib[0].name}"
+                    M.viol(f"{spec['prop']}/library-raised-{type(e).__name__}@{where}", "the library raised where the workload expects a value",
+                           exc=repr(e)[:160], stack=[f"{os.path.basename(f.filename)}:{f.name}:{f.lineno}" for f in lib[:6]])
+                    M.count("library_raised")
+                else:
+                    M.count("harness_error")
+                    if len(M.notes) < 5:
+                        M.notes.append(f"harness error on {case!r}: {traceback.format_exc(limit=6)}")
             finally:
                 signal.setitimer(signal.ITIMER_VIRTUAL, 0)
         M.rearm = None
